@@ -271,3 +271,15 @@ func callsFuncNamed(info *types.Info, body []ast.Stmt, fn *types.Func) bool {
 	}
 	return found
 }
+
+func constInt(o types.Object) (int64, bool) {
+	k, ok := o.(*types.Const)
+	if !ok {
+		return 0, false
+	}
+	v := constant.ToInt(k.Val())
+	if v.Kind() != constant.Int {
+		return 0, false
+	}
+	return constant.Int64Val(v)
+}
